@@ -103,6 +103,24 @@ claim("C17", "exploration",
       "DESIGN.md 4 C17")
 
 
+claim("C18", "exploration",
+      "MagicMemoryCL (1..4 ports, latency 0..8), stream.MagicMemoryRTL (1..3 ports, extra latency 0..6) and "
+      "MagicMemoryFL behind its blocking interface are driven by our own sources (seeded gaps) and recording sinks "
+      "(seeded back-pressure) with per-port streams of READ/WRITE (len 1..4, straddling, overlapping in a 64-byte "
+      "window) and word AMOs; the stall randomness inside StallCL/RandomStall comes from the seeded stall stream and "
+      "stops at a seeded cycle. Wrappers on the MagicMemoryFL instance record the order in which requests were "
+      "processed (port and opaque read from the caller frame of up_mem). History checks: per-port processed order = "
+      "request order; responses in order with type/opaque; every returned value equals a byte-dictionary model "
+      "applied in processed order; an AMO is applied exactly once; final image equals the model; after faults stop "
+      "all outstanding responses arrive within outstanding+latency+4 cycles; single-port histories re-run with other "
+      "timing parameters return identical contents.",
+      "Sub-word AMOs are excluded (implementation raises; AMOs are defined at the architecture width). A request that "
+      "is re-processed while stalled is mirrored event by event by the model (sound for reads/writes); AMO double "
+      "application is flagged only when no other port wrote the word in between.",
+      "deterministic simulation of reactive components, seeded stall/latency/back-pressure faults, sequential-spec oracle "
+      "over the recorded processing order", "DESIGN.md 4 C18")
+
+
 def main():
   props = [json.loads(l)["id"] for l in open(os.path.join(VERIF, "properties.jsonl"))]
   checks = []
